@@ -30,7 +30,9 @@ from exabgp.configuration.schema import (
     ActionKey,
 )
 
-from exabgp.configuration.static.parser import prefix
+from exabgp.configuration.static.parser import aigp, attribute, prefix, watchdog, withdraw
+from exabgp.configuration.static.parser import name as named
+from exabgp.configuration.validator import LegacyParserValidator
 
 # Import and re-export _build_route for backward compatibility
 from exabgp.configuration.announce.route_builder import _build_route  # noqa: F401
@@ -135,6 +137,7 @@ class AnnounceIP(ParseAnnounce):
                 target=ActionTarget.ATTRIBUTE,
                 operation=ActionOperation.ADD,
                 key=ActionKey.NAME,
+                validator=LegacyParserValidator(parser_func=aigp, name='aigp'),
             ),
             'attribute': Leaf(
                 type=ValueType.HEX_STRING,
@@ -142,6 +145,7 @@ class AnnounceIP(ParseAnnounce):
                 target=ActionTarget.ATTRIBUTE,
                 operation=ActionOperation.ADD,
                 key=ActionKey.NAME,
+                validator=LegacyParserValidator(parser_func=attribute, name='attribute'),
             ),
             'name': Leaf(
                 type=ValueType.STRING,
@@ -149,6 +153,7 @@ class AnnounceIP(ParseAnnounce):
                 target=ActionTarget.ATTRIBUTE,
                 operation=ActionOperation.ADD,
                 key=ActionKey.NAME,
+                validator=LegacyParserValidator(parser_func=named, name='name'),
             ),
             'split': Leaf(
                 type=ValueType.INTEGER,
@@ -163,6 +168,7 @@ class AnnounceIP(ParseAnnounce):
                 target=ActionTarget.ATTRIBUTE,
                 operation=ActionOperation.ADD,
                 key=ActionKey.NAME,
+                validator=LegacyParserValidator(parser_func=watchdog, name='watchdog'),
             ),
             'withdraw': Leaf(
                 type=ValueType.BOOLEAN,
@@ -170,6 +176,7 @@ class AnnounceIP(ParseAnnounce):
                 target=ActionTarget.ATTRIBUTE,
                 operation=ActionOperation.ADD,
                 key=ActionKey.NAME,
+                validator=LegacyParserValidator(parser_func=withdraw, name='withdraw'),
             ),
         },
     )
